@@ -90,6 +90,140 @@ def composeinfo_canonical(sym, perm, arch_order, path_order, dumps):
     sym.check("sorted-keys-indent-4", canonical_json(sym, texts[0]))
 
 
+ED_SPEC_A = [("Server", "Server", None, ["x86_64", "s390x"]), ("Client", "Client", None, ["x86_64", "i386"]),
+             ("HA", "Server-HA", "Server", ["x86_64", "s390x"]), ("optional", "Server-optional", "Server", ["x86_64"])]
+# the same forest after the edit: one arch exchanged for another in two sets (the sizes stay the same), one set grown
+ED_SPEC_B = [("Server", "Server", None, ["x86_64", "ppc64le"]), ("Client", "Client", None, ["aarch64", "x86_64"]),
+             ("HA", "Server-HA", "Server", ["ppc64le", "x86_64"]), ("optional", "Server-optional", "Server", ["x86_64", "ppc64le"])]
+
+
+def composeinfo_edited(sym, primed_by, how):
+    """an object that was already dumped (or was loaded from a file) is edited and dumped again: the bytes are those of a
+    fresh object with the same final content - nothing remembered from the earlier dump/load may show"""
+    def content(spec, tag):
+        c = {"r_name": sym.str("r_name" + tag, 3), "spec": spec}
+        for vid, uid, parent, arches in spec:
+            c["name_" + uid] = sym.str("name%s_%s" % (tag, uid.replace("-", "_")), 2, minlen=1)
+            c["paths_" + uid] = [("os_tree", a, sym.str("p%s_%s_%s" % (tag, vid, a), 2, minlen=1)) for a in arches] + [("repository", arches[-1], "tree/" + vid)]
+        return c
+    a, b = content(ED_SPEC_A, "A"), content(ED_SPEC_B, "B")
+    obj = build_composeinfo(a, [0, 1, 2, 3], False, False)
+    first = obj.dumps()
+    if primed_by == "load":
+        obj = ComposeInfo()
+        obj.loads(first)
+    sym.cover("primed")
+    # ---- the edit: parents first (a child's arches must stay inside its parent's)
+    obj.release.name = b["r_name"]
+    for vid, uid, parent, arches in ED_SPEC_B:
+        v = obj.get_variants(recursive=True)
+        v = [x for x in v if x.uid == uid][0]
+        old = [x for x in ED_SPEC_A if x[1] == uid][0][3]
+        if how == "in-place":
+            for x in old:
+                if x not in arches:
+                    v.arches.discard(x)
+            for x in arches:
+                v.arches.add(x)
+        else:
+            v.arches = set(arches)
+        v.name = b["name_" + uid]
+        for x in old:
+            v.paths.os_tree.pop(x, None)
+            v.paths.repository.pop(x, None)
+        for field, arch, value in b["paths_" + uid]:
+            getattr(v.paths, field)[arch] = value
+    again = obj.dumps()
+    sym.cover("built")
+    fresh = build_composeinfo(b, [0, 1, 2, 3], False, False).dumps()
+    sym.check("edited-object-writes-what-a-fresh-object-writes", again == fresh)
+    sym.check("and-again", obj.dumps() == fresh)
+
+
+def images_edited(sym, primed_by):
+    """images added / removed after a dump (or after a load) are written like a freshly built manifest"""
+    paths = [sym.str("path%d" % i, 2, minlen=1) for i in range(3)]
+    sums = [sym.str("sum%d" % i, 2) for i in range(3)]
+    for i in range(3):
+        for j in range(i + 1, 3):
+            sym.assume(paths[i] != paths[j])
+
+    def build(which):
+        im = Images()
+        fill_compose(im)
+        for i in which:
+            im.add("Server", "x86_64", make_image(im, paths[i], i, sums[i]))
+        im.add("Client", "x86_64", make_image(im, "other/1", 8, "x"))
+        return im
+    obj = build([0, 1])
+    first = obj.dumps()
+    if primed_by == "load":
+        obj = Images()
+        obj.loads(first)
+    sym.cover("primed")
+    obj.add("Server", "x86_64", make_image(obj, paths[2], 2, sums[2]))
+    obj.compose.respin = 3
+    again = obj.dumps()
+    sym.cover("built")
+    ref = build([0, 1, 2])
+    ref.compose.respin = 3
+    fresh = ref.dumps()
+    sym.check("edited-object-writes-what-a-fresh-object-writes", again == fresh)
+    sym.check("and-again", obj.dumps() == fresh)
+
+
+def treeinfo_edited(sym, primed_by):
+    """a tree is dumped (or loaded), then its variants, platforms, images and checksums change"""
+    import productmd.treeinfo as T
+    text = [(33, 36), (38, 126)]
+    names = [sym.str("vname%d" % i, 2, minlen=1, alphabet=text) for i in range(3)]
+    img = [sym.str("img%d" % i, 2, minlen=1, alphabet=[(97, 122)]) for i in range(2)]
+    cs = [sym.str("sum%d" % i, 2, minlen=1, alphabet="hexlower") for i in range(2)]
+
+    def build(stage):
+        ti = T.TreeInfo()
+        ti.release.name = "Fedora"
+        ti.release.short = "F"
+        ti.release.version = "21"
+        ti.tree.arch = "x86_64"
+        ti.tree.build_timestamp = 1417653453
+        ti.tree.platforms = set(["x86_64", "xen"])
+        v = T.Variant(ti)
+        v.id, v.uid, v.name, v.type = "Server", "Server", names[0], "variant"
+        v.paths.packages = "Server/Packages"
+        ti.variants.add(v)
+        ti.images.images["x86_64"] = {"boot.iso": img[0]}
+        ti.checksums.add("images/boot.iso", "sha256", cs[0])
+        if stage == "B":
+            edit(ti)
+        return ti
+
+    def edit(ti):
+        ti.tree.platforms.discard("xen")
+        ti.tree.platforms.add("ppc64le")          # same size, other content
+        ti.variants["Server"].name = names[1]
+        w = T.Variant(ti)
+        w.id, w.uid, w.name, w.type = "Client", "Client", names[2], "variant"
+        w.paths.packages = "Client/Packages"
+        ti.variants.add(w)
+        del ti.images.images["x86_64"]["boot.iso"]
+        ti.images.images["x86_64"]["kernel"] = img[1]
+        ti.checksums.checksums.pop("images/boot.iso")
+        ti.checksums.add("images/efiboot.img", "sha256", cs[1])
+    obj = build("A")
+    first = obj.dumps()
+    if primed_by == "load":
+        obj = T.TreeInfo()
+        obj.loads(first)
+    sym.cover("primed")
+    edit(obj)
+    again = obj.dumps()
+    sym.cover("built")
+    fresh = build("B").dumps()
+    sym.check("edited-object-writes-what-a-fresh-object-writes", again == fresh)
+    sym.check("and-again", obj.dumps() == fresh)
+
+
 # ---------------------------------------------------------------------------------------------------
 
 def make_image(im, path, i, checksum):
@@ -301,19 +435,26 @@ def jobs(tier, seed):
             out.append({"harness": "extra_canonical", "params": {"perm": p, "dumps": 3}})
     for pi in (range(6) if big else [(seed) % 6, (seed + 3) % 6]):
         out.append({"harness": "treeinfo_canonical", "params": {"vperm": PERMS3[pi], "iperm": PERMS3[(pi + 2) % 6], "cperm": PERMS3[(pi + 4) % 6], "dumps": 2}})
+    for primed_by in ("dump", "load"):
+        for how in ("in-place", "assign"):
+            out.append({"harness": "composeinfo_edited", "params": {"primed_by": primed_by, "how": how}})
+        out.append({"harness": "images_edited", "params": {"primed_by": primed_by}})
+        out.append({"harness": "treeinfo_edited", "params": {"primed_by": primed_by}})
     for j in out:
         j["replay_hashseeds"] = 12          # a set-order dependence shows natively only under some hash seeds
     return out
 
 
 META = {
-    "expected_covers": {"treeinfo_canonical": ["built"], "composeinfo_canonical": ["built"], "images_canonical": ["built"], "rpms_canonical": ["built"], "modules_canonical": ["built"],
+    "expected_covers": {"composeinfo_edited": ["primed", "built"], "images_edited": ["primed", "built"], "treeinfo_edited": ["primed", "built"], "treeinfo_canonical": ["built"], "composeinfo_canonical": ["built"], "images_canonical": ["built"], "rpms_canonical": ["built"], "modules_canonical": ["built"],
                         "extra_canonical": ["built"]},
     "assumptions": [
         "content symbolic (names, paths, checksums, tags), the construction order a permutation given per job (all 24/6 in the thorough tier), "
         "every Python set iterated in every order inside the interpreter (option set_order=nondet: n! branches per set) - this subsumes every PYTHONHASHSEED",
         "dict iteration follows insertion order (Python >= 3.7 language guarantee), which the permuted construction orders exercise",
         "each object is dumped 2-3 times; every dump must equal the dump of the reference construction order",
+        "edited objects: a composeinfo / images / treeinfo object that was dumped, or loaded from its own dump, is then edited through the public attributes "
+        "(arch sets exchanged in place or by assignment keeping their size, names, paths, images, platforms, checksums, variants added) and must write exactly what a freshly built object of the final content writes",
         "JSON text layer replaced by the DocText stub: two texts are equal iff normalised formatting arguments and ordered skeletons are equal",
         "treeinfo: variants, image tables, platform set and checksums built in permuted orders; the written text is also read by a plain order-preserving "
         "ConfigParser to check that sections and options are ascending",
